@@ -15,7 +15,15 @@ open Cpf.Go Cpf.Facts
 
 abbrev Bytes := List UInt8
 
-def str (s : String) : Bytes := s.toUTF8.toList
+/-- UTF-8 encoding of one character (kernel-reducible, unlike `String.toUTF8`) -/
+def utf8 (c : Char) : Bytes :=
+  let n := c.toNat
+  if n < 0x80 then [UInt8.ofNat n]
+  else if n < 0x800 then [UInt8.ofNat (0xC0 + n / 64), UInt8.ofNat (0x80 + n % 64)]
+  else if n < 0x10000 then [UInt8.ofNat (0xE0 + n / 4096), UInt8.ofNat (0x80 + (n / 64) % 64), UInt8.ofNat (0x80 + n % 64)]
+  else [UInt8.ofNat (0xF0 + n / 262144), UInt8.ofNat (0x80 + (n / 4096) % 64), UInt8.ofNat (0x80 + (n / 64) % 64), UInt8.ofNat (0x80 + n % 64)]
+
+def str (s : String) : Bytes := s.toList.flatMap utf8
 
 /-- a syntax node: type, field name in its parent, byte range, start row/column, named?, children -/
 inductive T where
